@@ -6,6 +6,7 @@
    Actions (code site):
      Accept       vbi_proxyd_add_connection (a connection counts for the number of buffers from here on)
      Connect      CONNECT_REQ: vbi_proxyd_take_service_req, vbi_proxyd_update_services, start_acquisition
+     ConnectRej   CONNECT_REQ for services the device has none of: service update as above, then refused and closed
      ServiceReq   SERVICE_REQ: the client's queued frames are released first, then as above
      Disconnect   vbi_proxyd_close + removal + vbi_proxyd_update_services
      Tick         select variant, one frame arrives: vbi_proxyd_forward_data (vbi_proxy_queue_get_free, else
@@ -15,6 +16,14 @@
      Send         vbi_proxyd_send_sliced + vbi_proxy_queue_release_sliced for one client (lines filtered to the
                   client's services)
      Read         the client takes one frame out of its socket
+     Partial      vbi_proxy_msg_handle_read returns with a message received in part (k of the 8 header bytes, or
+                  the header and a part of the body): the connection is not idle any more, so the daemon neither
+                  forwards frames to it nor reads anything but the rest of that message - for as long as the
+                  client likes.  The frames captured meanwhile are queued for it; when no buffer is free they are
+                  taken away from it like from a client with a blocked write (vbi_proxy_queue_force_free)
+     Other        a complete message without effect on the data path (token request, notify, ioctl, suspend,
+                  reclaim confirmation) has been taken: the read phase is over, forwarding resumes
+                  (a message that is refused - malformed, wrong state - closes the connection: Disconnect)
 
    Select variant (Threaded = FALSE): the main loop forwards to every client that can take data after each
    captured frame, so a frame arrives only when every client with queued frames is blocked.  Thread
@@ -28,8 +37,13 @@
      Filtered      every frame sent to c carries exactly the captured lines of the services granted to c
      RefCount      ref_count of a queued buffer = number of cursors at or before it; no buffer without a
                    reference is queued; what force-free and release take away is the head of the queue
-     OnlyBlockedLose  (select variant) a client loses a frame only while it is blocked, i.e. a stalled client
-                   never costs another client a frame; (both variants) frames are lost only when no buffer is free
+     OnlyBlockedLose  (select variant) a client loses a frame only while it is blocked or in the middle of a
+                   message of its own, i.e. a stalled or faulty client never costs another client a frame;
+                   (both variants) frames are lost only when no buffer is free
+     CanCapture    whatever the clients do, the daemon finds a buffer for the next frame ("queue overflow", where
+                   it stops reading the device and nobody gets data any more, is not reachable)
+     OthersKept    (C19) a step of client c - a message, a part of one, a refused one, a disconnect - changes
+                   nothing in what any other client has got, has queued and is still owed
      DeviceOpen    the device is open iff some client is granted a service, for exactly their union *)
 EXTENDS Naturals, Sequences, FiniteSets, TLC
 
@@ -41,7 +55,8 @@ CONSTANTS Clients,        \* connection slots
           MaxFrames,      \* bound of the capture clock in model checking
           Threaded,       \* acquisition thread variant
           LevelsUsed,     \* strictness levels the clients of the model use (subset of 0..3)
-          Discards        \* may the client throw away unread frames at its own service change (library clients do)
+          Discards,       \* may the client throw away unread frames at its own service change (library clients do)
+          Faulty          \* the clients that may stop in the middle of a message (Partial)
 
 Levels == 0..3            \* strict -1..2
 VARIABLES conn,           \* [Clients -> {"none", "wait", "fwd"}]: no connection / accepted (WAIT_CON_REQ) / FORWARD
@@ -54,9 +69,10 @@ VARIABLES conn,           \* [Clients -> {"none", "wait", "fwd"}]: no connection
           frame,          \* capture clock: number of the last frame
           sock,           \* [Clients -> Seq([id, lines])]: sent, not yet read
           tmp,            \* thread variant: the acquisition thread holds a buffer (p_tmp_buf) and waits for a frame
+          rdp,            \* [Clients -> BOOLEAN]: a message of the client is received in part (!vbi_proxy_msg_read_idle)
           owed            \* ghost, see above (numbers of the frames c has still to read)
 
-vars == <<conn, req, granted, open, devsrv, queue, nfree, cur, frame, sock, tmp, owed>>
+vars == <<conn, req, granted, open, devsrv, queue, nfree, cur, frame, sock, tmp, rdp, owed>>
 
 NoReq == [l \in Levels |-> {}]
 Ids(s) == [i \in 1..Len(s) |-> s[i].id]
@@ -71,6 +87,7 @@ Init == /\ conn = [c \in Clients |-> "none"] /\ req = [c \in Clients |-> NoReq]
         /\ granted = [c \in Clients |-> {}] /\ open = FALSE /\ devsrv = {}
         /\ queue = <<>> /\ nfree = 0 /\ cur = [c \in Clients |-> 0] /\ frame = 0
         /\ sock = [c \in Clients |-> <<>>] /\ tmp = FALSE /\ owed = [c \in Clients |-> <<>>]
+        /\ rdp = [c \in Clients |-> FALSE]
 
 ---------------------------------------------------------------------------
 (* queue primitives *)
@@ -119,7 +136,10 @@ UpdateServices(rq, cn, q, cu, nf) ==
 
 \* vbi_proxyd_add_connection
 Accept(c) == /\ conn[c] = "none" /\ conn' = [conn EXCEPT ![c] = "wait"]
-             /\ UNCHANGED <<req, granted, open, devsrv, queue, nfree, cur, frame, sock, tmp, owed>>
+             /\ UNCHANGED <<req, granted, open, devsrv, queue, nfree, cur, frame, sock, tmp, rdp, owed>>
+
+\* a complete message has been taken: the read phase of the connection is over
+MsgDone(c) == rdp' = [rdp EXCEPT ![c] = FALSE]
 
 \* CONNECT_REQ with services sv at strictness level l
 Connect(c, sv, l) ==
@@ -130,7 +150,16 @@ Connect(c, sv, l) ==
         /\ conn' = cn /\ req' = rq
         /\ UpdateServices(rq, cn, queue, cur, nfree)
   /\ sock' = [sock EXCEPT ![c] = <<>>] /\ owed' = [owed EXCEPT ![c] = <<>>]
-  /\ UNCHANGED frame
+  /\ MsgDone(c) /\ UNCHANGED frame
+
+\* CONNECT_REQ asking only for services the device does not have: it is processed like any other (state FORWARD,
+\* vbi_proxyd_update_services - the buffers are counted again, with this connection, and the acquisition thread is
+\* restarted), then refused (CONNECT_REJ) and the connection closed - without another update, since it has no services
+ConnectRej(c) ==
+  /\ conn[c] = "wait"
+  /\ conn' = [conn EXCEPT ![c] = "none"]
+  /\ IF open THEN nfree' = AllocTo(Len(queue), conn) /\ tmp' = FALSE ELSE UNCHANGED <<nfree, tmp>>
+  /\ MsgDone(c) /\ UNCHANGED <<req, granted, open, devsrv, queue, cur, frame, sock, owed>>
 
 \* SERVICE_REQ: reset clears the cache; sv moves to level l; the client's queued frames are dropped first.
 \* discard: the client (library) also throws away what it has not read yet while it waits for the confirmation.
@@ -148,7 +177,7 @@ ServiceReq(c, sv, l, reset, discard) ==
         \* excused: what was still queued for c
         /\ owed' = [owed EXCEPT ![c] = SelectSeq(@, LAMBDA f : f \notin gone)]
         /\ sock' = IF discard THEN [sock EXCEPT ![c] = <<>>] ELSE sock
-  /\ UNCHANGED <<conn, frame>>
+  /\ MsgDone(c) /\ UNCHANGED <<conn, frame>>
 
 \* the connection is closed (by either side) and removed
 Disconnect(c) ==
@@ -162,13 +191,26 @@ Disconnect(c) ==
            ELSE /\ queue' = r.q /\ cur' = r.cu /\ nfree' = r.nf
                 /\ UNCHANGED <<granted, open, devsrv, tmp>>
   /\ sock' = [sock EXCEPT ![c] = <<>>] /\ owed' = [owed EXCEPT ![c] = <<>>]
-  /\ UNCHANGED frame
+  /\ MsgDone(c) /\ UNCHANGED frame
+
+\* a message of c is received in part (then silence): the connection stays in its read phase
+Partial(c) ==
+  /\ c \in Faulty /\ conn[c] # "none"
+  /\ rdp' = [rdp EXCEPT ![c] = TRUE]
+  /\ UNCHANGED <<conn, req, granted, open, devsrv, queue, nfree, cur, frame, sock, tmp, owed>>
+
+\* a complete message that leaves the data path alone (CHN_TOKEN_REQ, CHN_NOTIFY_REQ, CHN_IOCTL_REQ, CHN_SUSPEND_REQ,
+\* CHN_RECLAIM_CNF): taken, answered; the frames queued meanwhile are forwarded afterwards (Send)
+Other(c) ==
+  /\ conn[c] # "none" /\ MsgDone(c)
+  /\ UNCHANGED <<conn, req, granted, open, devsrv, queue, nfree, cur, frame, sock, tmp, owed>>
 
 ---------------------------------------------------------------------------
 (* data path *)
 
-\* who must have been served before the next frame is taken (select variant): everybody who is not blocked
-Served(blk) == \A c \in Clients : cur[c] # 0 => c \in blk
+\* who must have been served before the next frame is taken (select variant): everybody who is not blocked and
+\* not in the middle of a message of its own (vbi_proxy_msg_is_idle)
+Served(blk) == \A c \in Clients : cur[c] # 0 => (c \in blk \/ rdp[c])
 
 \* vbi_proxy_queue_get_free, else vbi_proxy_queue_force_free: a buffer for the next frame.  Without a free one the
 \* head of the queue is taken away from every client still on it.  (ok: the head is referenced by exactly those)
@@ -194,6 +236,7 @@ Enqueue(q, cu, nf, o) ==
              /\ cur' = [c \in Clients |-> IF c \in subs /\ cu[c] = 0 THEN Len(q) + 1 ELSE cu[c]]
         ELSE /\ queue' = q /\ cur' = cu /\ nfree' = nf + 1
      /\ owed' = [c \in Clients |-> IF c \in subs THEN Append(o[c], f) ELSE o[c]]
+     /\ UNCHANGED rdp
 
 \* select variant - one frame: blk = the clients whose socket is full; quiet: the frame arrives while the main
 \* loop is waiting (not in the middle of a burst)
@@ -209,7 +252,7 @@ Fetch ==
   /\ LET t == TakeBuffer IN
         /\ t.ok /\ queue' = t.q /\ cur' = t.cu /\ nfree' = t.nf /\ owed' = Forgive(owed, t)
   /\ tmp' = TRUE
-  /\ UNCHANGED <<conn, req, granted, open, devsrv, frame, sock>>
+  /\ UNCHANGED <<conn, req, granted, open, devsrv, frame, sock, rdp>>
 \* ... and stores it (implicit: buffer taken and frame stored in one step, no buffer had to be forced free)
 Capture(implicit) ==
   /\ Threaded /\ open /\ frame < MaxFrames
@@ -219,28 +262,29 @@ Capture(implicit) ==
   /\ UNCHANGED <<conn, req, granted, open, devsrv, sock>>
 
 \* the daemon sends c its next frame, filtered to c's services, and releases the buffer for c
+\* (only while the connection is idle: no write pending, no message of the client received in part)
 Send(c) ==
-  /\ Fwd(c) /\ cur[c] # 0 /\ ~Blocked(c)
+  /\ Fwd(c) /\ cur[c] # 0 /\ ~Blocked(c) /\ ~rdp[c]
   /\ LET b == queue[cur[c]]
          r == Release1(queue, cur, nfree, c)
      IN /\ r.ok
         /\ sock' = [sock EXCEPT ![c] = Append(@, [id |-> b.id, lines |-> b.lines \cap granted[c]])]
         /\ queue' = r.q /\ cur' = r.cu /\ nfree' = r.nf
-  /\ UNCHANGED <<conn, req, granted, open, devsrv, frame, tmp, owed>>
+  /\ UNCHANGED <<conn, req, granted, open, devsrv, frame, tmp, rdp, owed>>
 
 \* the client reads one frame: it must be the oldest one owed to it
 Read(c) ==
   /\ Fwd(c) /\ sock[c] # <<>>
   /\ sock' = [sock EXCEPT ![c] = Tail(@)]
   /\ owed' = [owed EXCEPT ![c] = IF @ # <<>> /\ Head(@) = Head(sock[c]).id THEN Tail(@) ELSE @]
-  /\ UNCHANGED <<conn, req, granted, open, devsrv, queue, nfree, cur, frame, tmp>>
+  /\ UNCHANGED <<conn, req, granted, open, devsrv, queue, nfree, cur, frame, tmp, rdp>>
 
 BlockedNow == {c \in Clients : Fwd(c) /\ Blocked(c)}
 
 Next == \/ \E c \in Clients :
              \/ \E sv \in SUBSET Services, l \in LevelsUsed : Connect(c, sv, l)
              \/ \E sv \in SUBSET Services, l \in LevelsUsed, rs \in BOOLEAN, dc \in Discards : ServiceReq(c, sv, l, rs, dc)
-             \/ Accept(c) \/ Disconnect(c) \/ Send(c) \/ Read(c)
+             \/ Accept(c) \/ Disconnect(c) \/ Send(c) \/ Read(c) \/ Partial(c) \/ Other(c) \/ ConnectRej(c)
         \/ Tick(BlockedNow, TRUE) \/ Fetch \/ Capture(FALSE)
 
 Spec == Init /\ [][Next]_vars
@@ -250,6 +294,7 @@ Spec == Init /\ [][Next]_vars
 
 TypeOK == /\ \A i \in 1..Len(queue) : queue[i].ref \in Nat /\ queue[i].lines \subseteq Supported
           /\ \A c \in Clients : cur[c] \in 0..Len(queue)
+          /\ rdp \in [Clients -> BOOLEAN] /\ \A c \in Clients : rdp[c] => conn[c] # "none"
 
 \* ref_count = number of cursors that will still reach the buffer; nothing unreferenced is queued
 RefCount == \A i \in 1..Len(queue) :
@@ -278,9 +323,27 @@ DeviceOpen == /\ open <=> (\E c \in Clients : granted[c] # {})
 Lost(c) == \/ frame' = frame + 1 /\ Len(owed'[c]) < Len(owed[c]) + (IF Subscribed(c) THEN 1 ELSE 0)
            \/ frame' = frame /\ ~tmp /\ tmp' /\ Len(owed'[c]) < Len(owed[c])
 LossOnlyWhenFull == [][\A c \in Clients : Lost(c) => nfree = 0 /\ cur[c] = 1]_vars
-OnlyBlockedLose == [][\A c \in Clients : Lost(c) => (Threaded \/ Blocked(c))]_vars
+OnlyBlockedLose == [][\A c \in Clients : Lost(c) => (Threaded \/ Blocked(c) \/ rdp[c])]_vars
+
+\* the daemon always finds a buffer for the next frame: a free one, or the head of the queue, which is referenced
+\* by exactly the clients whose cursor is on it - whatever state their connections are in
+CanCapture == (open /\ ~tmp) => TakeBuffer.ok
+
+\* (C19) what a client does - or stops doing in the middle - is its own affair: the frames the others have got,
+\* have queued and are owed stay as they are; so does their subscription
+ClientStep(c) == \/ \E sv \in SUBSET Services, l \in LevelsUsed : Connect(c, sv, l)
+                 \/ \E sv \in SUBSET Services, l \in LevelsUsed, rs \in BOOLEAN, dc \in Discards : ServiceReq(c, sv, l, rs, dc)
+                 \/ Disconnect(c) \/ Partial(c) \/ Other(c) \/ ConnectRej(c)
+ChangedFor(d) == \/ conn'[d] # conn[d] \/ granted'[d] # granted[d] \/ rdp'[d] # rdp[d]
+                 \/ sock'[d] # sock[d] \/ owed'[d] # owed[d]
+                 \/ Ids(QueuedFor(queue', cur', d)) # Ids(QueuedFor(queue, cur, d))
+\* stated from the side of the client that is left alone (cheaper to evaluate): d's connection, subscription, socket,
+\* queued frames and dues change only by a captured frame, a daemon step for d, or a step of d itself
+OthersKept == [][\A d \in Clients : ChangedFor(d) =>
+                    (frame' # frame \/ tmp' # tmp \/ Send(d) \/ Read(d) \/ Accept(d) \/ ClientStep(d))]_vars
 
 \* reachability companions (must be violated)
 NeverLost == [][\A c \in Clients : ~Lost(c)]_vars
 NeverTwoQueued == Len(queue) < 2
+NeverStuckLoses == [][\A c \in Clients : Lost(c) => ~rdp[c]]_vars
 =============================================================================
